@@ -70,6 +70,7 @@ impl Hasher for TH {
 /// the context the scripted caller supplies: a deadline 7 s after `base` and a trace context with unequal halves
 fn caller_ctx(base: std::time::Instant) -> context::Context {
     let mut c = context::current();
+    // `base` is either now (deadline 7 s ahead) or 60 s in the past (deadline long elapsed: the stub must not care)
     c.deadline = base + std::time::Duration::from_secs(7);
     c.trace_context = tarpc::trace::Context {
         trace_id: tarpc::trace::TraceId::from((0x1122_3344_5566_7788u128 << 64) | 0x99aa),
@@ -200,7 +201,8 @@ fn run_one(s: &Sched) {
                 a.iter().map(|p| (p[0].as_bool().unwrap_or(false), p[1].as_bool().unwrap_or(false))).collect()
             }).unwrap_or_default();
             let errkind = cfg["errkind"].as_str().unwrap_or("deadline").to_string();
-            let base = std::time::Instant::now();
+            let now = std::time::Instant::now();
+            let base = if cfg["elapsed"].as_bool().unwrap_or(false) { now.checked_sub(std::time::Duration::from_secs(60)).unwrap_or(now) } else { now };
             let stub = ScriptStub { base, errkind, script, n: AtomicU32::new(0), first: Mutex::new(None) };
             let pol = policy.clone();
             let retry = Retry::new(stub, move |res: &Result<u64, RpcError>, attempt: u32| {
@@ -240,7 +242,7 @@ pub fn run(a: &Args) -> Value {
                 let mut policy: Vec<Value> = (0..len).map(|_| json!([rng.gen_bool(0.4), rng.gen_bool(0.7)])).collect();
                 policy[len - 1] = json!([false, false]);
                 let errkind = ["deadline", "shutdown", "server"][rng.gen_range(0..3)];
-                json!({"kind": "retry", "n": 1, "script": script, "policy": policy, "errkind": errkind})
+                json!({"kind": "retry", "n": 1, "script": script, "policy": policy, "errkind": errkind, "elapsed": rng.gen_bool(0.5)})
             }
         };
         scheds.push(Sched { id: format!("r{}", i), cfg, steps: vec![], expect: None });
